@@ -104,7 +104,11 @@ class Ctx:
             env=None, coverage=True, deque=False, heap="4g", expect_cases=False,
             deadlock=False, extra=None, count=True, label=None):
         """Run TLC on spec/<module>.tla with spec/<cfg>. Returns TlcResult.
-        simulate: number of traces for -simulate mode."""
+        simulate: number of traces for -simulate mode.
+        Models that bound the behaviour length through a history variable hidden by a VIEW must be run with
+        workers=1: only a strict breadth-first search reaches every view-state by a shortest path first; with
+        several workers a state first reached by a longer path has its successors cut by the bound and the
+        explored set shrinks nondeterministically (observed: 19 k .. 31 k states for the same instance)."""
         res = TlcResult()
         cfg = cfg or module + ".cfg"
         meta = os.path.join(self.work, f"tlc-{module}-{len(self.cov['tlc_runs'])}")
